@@ -3,6 +3,3 @@
 #![allow(dead_code, unused_imports)]
 
 // (c17.rs is included from event.rs: it needs `event::GrpcService`)
-#[cfg(any(verif_all, verif_c19))]
-#[path = "/verif/harness/daemon/c19.rs"]
-mod c19;
